@@ -55,9 +55,9 @@ func main() {
 		run(r, w.Case)
 		r.Finish()
 	}
-	for i, n := 0, r.Pick(3000, 60000); i < n; i++ {
+	ev.Parallel(r.Pick(3000, 60000), 8, func(i int) {
 		run(r, caseID{"fsm", r.Seed*1_000_003 + int64(i)})
-	}
+	})
 	for i, n := 0, r.Pick(8, 60); i < n; i++ {
 		run(r, caseID{"visibility", r.Seed*2_000_003 + int64(i)})
 	}
